@@ -18,6 +18,8 @@ def run(ctx, model_ok, deep=False):
     import ecframe
     ecframe.run(ctx, model_ok, deep)
     F.run_suites(ctx, model_ok, deep, [
+        ("header-history", S.header_history_suite, S.falsify_accept,
+         "a genuine token, then on the same checker (or another one of the thread) a token whose header has the same length and the same first k base64url characters but names another algorithm / none / no algorithm of the library, or is the first header with characters appended, signed correctly over its own text; then the genuine token again; k and the header length on both sides of 16...4096 and of every size new in the source; HS256 and RS256", False),
         ("programs", S.programs_suite, S.falsify_programs,
          "110 (quick) / 1500 (thorough) random programs of 55-70 API calls over 3 checkers, 3 builders, every pool key (with/without alg attribute, private/public), callbacks, clocks and both providers; every answer compared with the model; 60% of the verifies and generates are asked of a fresh twin configured by the same calls first", False),
         ("verify-sig-openssl", lambda w, p, t, r: S.verify_sig(w, p, t, r, "openssl"), S.falsify_accept,
